@@ -144,6 +144,19 @@ Definition estimate_gas (ex : N -> exres) (gas_cap : N) (args_gas : option N) (b
 Definition exec_of (ctx : kv) (ev : list N) (call : N -> prog exres) : N -> exres :=
   fun g => run_no_commit ctx ev (call g).
 
+(* ------------------------------------------------------------------ the gas limit a simulated call runs with *)
+
+(* x/evm/types/tx_args.go TransactionArgs.ToMessage(globalGasCap, baseFee):
+   gas := globalGasCap; if gas == 0 { gas = MaxUint64/2 }; if args.Gas != nil { gas = *args.Gas };
+   if globalGasCap != 0 && globalGasCap < gas { gas = globalGasCap } *)
+Definition HalfMaxU64 : N := 9223372036854775807.
+Definition call_gas (gas_cap : N) (args_gas : option N) : N :=
+  let g := match args_gas with
+           | Some g => g
+           | None => if gas_cap =? 0 then HalfMaxU64 else gas_cap
+           end in
+  if negb (gas_cap =? 0) && (gas_cap <? g) then gas_cap else g.
+
 (* ------------------------------------------------------------------ histories *)
 
 (* queries, check-tx trial executions and delivered transactions interleaved in any order *)
